@@ -1,8 +1,8 @@
 import PdshVerif.Opt.Wcoll
 import PdshVerif.Opt.WcollSpec
 import PdshVerif.Opt.WcollLemmas
-import PdshVerif.Opt.SourceLemmas
-import PdshVerif.Opt.Refine
+import PdshVerif.Opt.WcollSources
+import PdshVerif.Opt.WcollRefine
 
 /-!
 # C10  The target list is assembled faithfully from every source
